@@ -137,7 +137,29 @@ func (m *Mon) updateLedgers(sc *StepCtx) {
 			}
 			if op == "update" {
 				t.Providers = provHex(rc.Providers)
+				var f uint64
+				var to int64
+				if mm, ok := sc.Msg.(*types.MsgUpdateRequestContext); ok {
+					f, to = mm.RepeatedFrequency, mm.Timeout
+				} else if sc.Step.Mod != nil {
+					f, to = sc.Step.Mod.Freq, sc.Step.Mod.Timeout
+				}
+				if f != 0 {
+					t.NamedFreq = f
+				}
+				if to != 0 {
+					t.NamedTimeout = to
+				}
+				// C10: an update changes only the schedule terms it names
+				if t.NamedSet && rc.Repeated && (rc.RepeatedFrequency != t.NamedFreq || rc.Timeout != t.NamedTimeout) {
+					m.fail(sc, "C10", "schedule-as-named", fmt.Sprintf("freq%v-timeout%v", rc.RepeatedFrequency != t.NamedFreq, rc.Timeout != t.NamedTimeout), "after %s context %.16s has timeout %d / frequency %d, its consumer named timeout %d / frequency %d", sc.Step.Desc, id, rc.Timeout, rc.RepeatedFrequency, t.NamedTimeout, t.NamedFreq)
+				}
+				m.hit("C10", "schedule-as-named", fmt.Sprintf("f%v/t%v", f != 0, to != 0))
 			}
+		}
+		if !t.NamedSet && sc.Idx >= 0 {
+			// first sight: the terms the call fixed (a zero frequency means "same as the timeout")
+			t.NamedSet, t.NamedFreq, t.NamedTimeout = true, rc.RepeatedFrequency, rc.Timeout
 		}
 		if t.Providers == nil {
 			t.Providers = provHex(rc.Providers)
